@@ -150,6 +150,7 @@ Proof.
   (* a carrier protein *)
   destruct (isSome (m_end m)); cbn [bind] in *; [discriminate|].
   destruct (isSome (m_cp m)); cbn [negb bind] in *; [|left; intros; exact Hadd].
+  destruct (existsb c_cp (m_others m)); cbn [bind] in *; [discriminate|].
   destruct (0 <? double_len la) eqn:E; cbn [bind] in *; [|discriminate].
   right. split; [lia|]. inversion Hadd. reflexivity.
 Qed.
